@@ -1,7 +1,7 @@
 ---- MODULE MC_Claims ----
 \* Bounded instance of PsaClaims: setter / getter / validate histories of unbounded length over
 \* a finite value domain (the reachable set is finite, VIEW = the object).
-EXTENDS PsaClaims
+EXTENDS PsaClaimsSM
 CertDom == {EAN13, EAN13p5, Rep(12, "D"), <<"X">> \o EAN13p5, <<>>}
 H(n) == Bytes(n, 2)
 C2(mv, sid) == Comp(Abs, mv, Abs, sid, Abs)
